@@ -21,10 +21,13 @@ PROPERTY = "C12"
 LEVEL = "exploration"
 RULE = (
     "For each of 17 value types, triples drawn from a small per-example pool of specs (so equal-but-distinct objects, "
-    "built through different constructors, are common) in all calendars, plus unrelated operands; component-key "
+    "built through different constructors, are common; a value up to ~13 months away on the same axis is in the pool) "
+    "in all calendars, plus unrelated operands; per calendar, all pairs among start/middle/end days of every month "
+    "of 19 (thorough 200) consecutive seed-chosen years and the first/last two years ordered as their day numbers; component-key "
     "oracle for ==, !=, hash, <, <=, >, >=, compare_to, min, max. Immutability: generated sequences of public method "
     "calls on values of every type with a snapshot-at-birth invariant re-checked after every step. Non-trivial: a "
     "pair equal but not identical, differing in exactly one component, or a cross-calendar / unrelated comparison; "
+    "for year panels: a leap / 13-month / first or last year; "
     "for histories: >= 3 operations that returned new values. Distinct = case hash."
 )
 ASSUMPTIONS = ["the harness never calls repr()/format on dates (month-name formatting of months 13+ raises on this code base)"]
@@ -259,6 +262,75 @@ def _k_triple(c) -> CaseInfo:
     if vs[0] == vs[1] and vs[1] == vs[2]:
         need(vs[0] == vs[2], f"eq-transitive/{t}")
     return CaseInfo(nt, f"triple:{t}")
+
+
+def _k_calorder(c) -> CaseInfo:
+    """Within one calendar year (plus the days just outside it): every pair of the dates at the start, middle and end
+    of every month is ordered by the operators, compare_to, min/max exactly as their day numbers are; likewise the
+    year-months of that year and local date-times built on those dates."""
+    from pyoda_time import LocalDate, LocalDateTime, LocalTime, YearMonth
+
+    cid, y = c["cal"], c["y"]
+    cal = pyo.cal(cid)
+    if not cal.min_year <= y <= cal.max_year:
+        raise InvalidCase
+    dates = []
+    for m in range(1, cal.get_months_in_year(y) + 1):
+        ln = cal.get_days_in_month(y, m)
+        for d in sorted({1, 2, ln // 2, ln - 1, ln}):
+            if d >= 1:
+                try:
+                    dates.append(LocalDate(y, m, d, cal))
+                except (ValueError, OverflowError):
+                    pass  # partial first/last year of a calendar
+    if not dates:
+        raise InvalidCase
+    lo, hi = min(d._days_since_epoch for d in dates), max(d._days_since_epoch for d in dates)
+    for n in (lo - 1, hi + 1):
+        if cal._min_days <= n <= cal._max_days:
+            dates.append(pyo.date_from_day(cid, n))
+    t1, t2 = LocalTime.midnight, LocalTime(23, 59, 59)
+    ldts = [(d._days_since_epoch * 2 + k, d.at(t)) for d in dates[:: max(1, len(dates) // 14)] for k, t in ((0, t1), (1, t2))]
+    yms = [(LocalDate(y, m, 1, cal)._days_since_epoch if _has_first(cal, y, m) else None, YearMonth(year=y, month=m, calendar=cal)) for m in range(1, cal.get_months_in_year(y) + 1)]
+    yms = [(k, v) for k, v in yms if k is not None]
+    groups = (("date", [(d._days_since_epoch, d) for d in dates]), ("datetime", ldts), ("yearmonth", yms))
+    for t, vals in groups:
+        for kx, x in vals:
+            for ky, yv in vals:
+                ok = (x < yv) == (kx < ky) and (x <= yv) == (kx <= ky) and (x > yv) == (kx > ky) and (x >= yv) == (kx >= ky) and (x == yv) == (kx == ky)
+                if not ok:
+                    raise Mismatch(f"order/{t}/{cid}", f"{x.year}-{x.month} vs {yv.year}-{yv.month} (keys {kx}, {ky}): < {x < yv} == {x == yv} > {x > yv}")
+                ct = x.compare_to(yv)
+                if (ct > 0) - (ct < 0) != (kx > ky) - (kx < ky):
+                    raise Mismatch(f"compare_to/{t}/{cid}", f"keys {kx}, {ky}: compare_to {ct}")
+                if t != "yearmonth":
+                    mx = type(x).max(x, yv)
+                    if mx != (x if kx >= ky else yv):
+                        raise Mismatch(f"minmax/{t}/{cid}", f"keys {kx}, {ky}")
+        srt = sorted((v for _, v in vals))
+        if [v for _, v in sorted(vals, key=lambda kv: kv[0])] != srt:
+            raise Mismatch(f"sorted/{t}/{cid}", f"year {y}")
+    return CaseInfo(cal.get_months_in_year(y) > 12 or y in (cal.min_year, cal.max_year) or cal.is_leap_year(y), f"calorder:{cid}")
+
+
+def _has_first(cal, y, m) -> bool:
+    from pyoda_time import LocalDate
+
+    try:
+        LocalDate(y, m, 1, cal)
+        return True
+    except (ValueError, OverflowError):
+        return False
+
+
+def task_calorder(ctx: Ctx, cids: list[str], years: int, salt: int) -> None:
+    for cid in cids:
+        cal = pyo.cal(cid)
+        ny = cal.max_year - cal.min_year + 1
+        start = cal.min_year + sub_seed(ctx.seed, "c12o", cid, salt) % max(1, ny - years)
+        ys = sorted(set(range(start, min(cal.max_year, start + years - 1) + 1)) | {cal.min_year, cal.min_year + 1, cal.max_year - 1, cal.max_year})
+        for y in ys:
+            ctx.case("calorder", {"cal": cid, "y": y})
 
 
 # --- immutability histories -------------------------------------------------------------------------------------------
@@ -508,14 +580,41 @@ def tweak(t: str, s: dict, k: int) -> dict:
     return s2
 
 
+def near(t: str, s: dict, d: int) -> dict:
+    """A spec a moderate distance (up to ~13 months) away from s on its main axis, same calendar: ordering bugs that
+    need two values in the same year but different months (e.g. Hebrew month 13 vs month 1) live here."""
+    s2 = dict(s)
+    if "n" in s2 and "cal" in s2:
+        c = pyo.cal(s2["cal"])
+        s2["n"] = max(c._min_days, min(c._max_days, s2["n"] + d))
+    elif t == "yearmonth":
+        c = pyo.cal(s2["cal"])
+        s2["m"] = 1 + (s2["m"] - 1 + d) % c.get_months_in_year(s2["y"])
+    elif t == "dateinterval":
+        c = pyo.cal(s2["cal"])
+        w = s2["b"] - s2["a"]
+        s2["a"] = max(c._min_days, min(c._max_days - w, s2["a"] + d))
+        s2["b"] = s2["a"] + w
+    elif t == "annual":
+        s2["m"] = 1 + (s2["m"] - 1 + d) % 12
+        s2["d"] = min(s2["d"], [31, 29, 31, 30, 31, 30, 31, 31, 30, 31, 30, 31][s2["m"] - 1])
+    elif "ns" in s2 and t in ("time", "offsettime"):
+        s2["ns"] = (s2["ns"] + d * 3600 * SEC) % DAY
+    elif "i" in s2:
+        s2["i"] = max(INST_MIN + 20 * 3600 * SEC, min(INST_MAX - 20 * 3600 * SEC, s2["i"] + d * 3600 * SEC))
+    else:
+        return tweak(t, s, d)
+    return s2
+
+
 def task_hyp(ctx: Ctx, shard: int, n: int) -> None:
     s = sub_seed(ctx.seed, "c12", shard)
     t = TYPES[shard % len(TYPES)]
     arg = st.fixed_dictionaries({"a": st.integers(0, 10**6), "b": st.integers(0, 10**6), "c": ints_biased(-(10**12), 10**12, (86400, 10**9))})
     ops = st.lists(st.fixed_dictionaries({"ix": st.integers(0, 40), "args": arg, "follow": st.booleans()}), min_size=1, max_size=12)
 
-    def body(a, b, picks, routes, tw, ops_):
-        pool = [a, b, tweak(t, a, tw), dict(a)]
+    def body(a, b, picks, routes, tw, ops_, nd):
+        pool = [a, b, tweak(t, a, tw), dict(a), near(t, a, nd)]
         specs = [pool[p % len(pool)] for p in picks]
         if all(valid_spec(t, sp) for sp in specs):
             ctx.case("triple", {"type": t, "specs": specs, "routes": routes})
@@ -523,7 +622,7 @@ def task_hyp(ctx: Ctx, shard: int, n: int) -> None:
 
     run_hypothesis(
         body,
-        dict(a=st_spec(t), b=st_spec(t), picks=st.lists(st.integers(0, 3), min_size=3, max_size=3), routes=st.lists(st.integers(0, 1), min_size=3, max_size=3), tw=st.integers(0, 10), ops_=ops),
+        dict(a=st_spec(t), b=st_spec(t), picks=st.lists(st.integers(0, 4), min_size=3, max_size=3), routes=st.lists(st.integers(0, 1), min_size=3, max_size=3), tw=st.integers(0, 10), ops_=ops, nd=st.integers(-400, 400)),
         n,
         s,
     )
@@ -531,4 +630,9 @@ def task_hyp(ctx: Ctx, shard: int, n: int) -> None:
 
 def tasks(tier: str, seed: int) -> list[Task]:
     n = 2500 if tier == "quick" else 30000
-    return [Task("task_hyp", {"shard": i, "n": n}, f"hyp-{TYPES[i % len(TYPES)]}-{i}") for i in range(len(TYPES))]
+    out = [Task("task_hyp", {"shard": i, "n": n}, f"hyp-{TYPES[i % len(TYPES)]}-{i}") for i in range(len(TYPES))]
+    ids = pyo.cal_ids()
+    # calendar-aware ordering: 19 (quick) / 200 (thorough) consecutive years from a seed-chosen start, per calendar
+    for j in range(0, len(ids), 2):
+        out.append(Task("task_calorder", {"cids": ids[j : j + 2], "years": 19 if tier == "quick" else 200, "salt": 0}, f"calorder-{j}"))
+    return out
